@@ -106,6 +106,9 @@ BAD_INPUTS = [("tcp", bytes([0x80, 0x09, 0xF5, 0x13, 0x0B])),                   
               ("yd", "garbage"), ("yd", "00:00:00.000 X 09F80101 00"), ("acti", "A1 2"), ("basic", "1,2,3"),
               ("usb", bytes(20)),                                                  # no marker
               ("tcp", fp.ebyte_packet(127250, 11, 255, 2, b"\x01\xff\xfe\x00\x00\x00\x00\xfc")[:13])]   # heading out of range
+# a first frame of the fast-packet PGN cut after its counter byte (no length byte): refused with an error, for every
+# source and sequence counter the histories use - it must leave the reassembly buffer of that stream alone
+BAD_INPUTS += [("tcp", fp.ebyte_packet(128275, s, 255, 6, bytes([q << 5]))) for s in (11, 12, 13) for q in (0, 1, 2, 3)]
 
 
 def feed_bad(dec, i: int):
@@ -176,7 +179,7 @@ def replay(behaviours, rng: random.Random):
             window = True
             counter = [0]
             evs = []
-            nbad = 0
+            nbad = rng.randrange(len(BAD_INPUTS))      # which kinds of bad input this history meets
             for action, st in beh[1:]:
                 ev = st["ev"]
                 k = ev["k"]
